@@ -587,6 +587,18 @@ func runC04(r *Rand, tier string, o *Out) {
 		}
 		o.Count("scenario:caller-leaves-in-the-middle")
 	}
+	// calls the server forwards to an object hosted by a client, which answers late and in its own order
+	lends := [][4]int{{1, 6, 1, 1}, {4, 6, 1, 4}, {8, 5, 2, 3}, {6, 8, 3, 16}}
+	if tier == "thorough" {
+		lends = append(lends, [][4]int{{16, 20, 2, 8}, {32, 10, 4, 5}, {8, 60, 1, 2}}...)
+	}
+	for _, c := range lends {
+		op := fmt.Sprintf("c04.lend %d %d %d %d %d", c[0], c[1], c[2], c[3], r.U64()>>1)
+		if out := o.Do("P", op, true); out != "ok" {
+			o.Fail("calls forwarded to an object hosted by a client: "+strings.SplitN(strings.TrimPrefix(out, "fail:"), ":", 2)[0], op+" => "+out)
+		}
+		o.Count("scenario:forwarded-calls")
+	}
 	// (b) client side: several clients on one endpoint, crossing, duplicated and unknown replies
 	scripts := 150
 	if tier == "thorough" {
